@@ -375,6 +375,9 @@ theorem unpackEntry_ok {dstP : PPath} {cwd dst : Str} {priv : Bool} {st : UState
         (pathDir_absClean path hpc) hdircmp
       simp only
       split
+      · -- extended header record: nothing happens
+        exact StOK.refl hinv hdirs
+      split
       · rename_i fs1 _ heq
         rw [heq] at hm
         exact StOK.of_step hinv hm hdirs
